@@ -56,10 +56,14 @@ func (e *eventV3) SetUnsigned(unsigned interface{}) (PDU, error) {
 	return &eventV3{eventV2: *v2}, nil
 }
 
-// Sign adds a signature to the event and returns it, keeping the room-version specific behaviour of this event.
+// Sign returns a copy of the event with an additional signature. The copy keeps the room-version
+// specific behaviour of this event.
 func (e *eventV3) Sign(signingName string, keyID KeyID, privateKey ed25519.PrivateKey) PDU {
-	e.eventV2.Sign(signingName, keyID, privateKey)
-	return e
+	v2, ok := e.eventV2.Sign(signingName, keyID, privateKey).(*eventV2)
+	if !ok {
+		panic(fmt.Errorf("gomatrixserverlib: Sign returned unexpected type"))
+	}
+	return &eventV3{eventV2: *v2}
 }
 
 func newEventFromUntrustedJSONV3(eventJSON []byte, roomVersion IRoomVersion) (PDU, error) {
